@@ -538,3 +538,53 @@ func (g *c17Gen) planRace() []*c17Plan {
 	return out
 }
 
+// planOrder: two triggers on DIFFERENT event types, created in this block, and two sends: the first send
+// emits an event of X's type that does not meet X's condition and then the event Y waits for, the second
+// emits the event X waits for.  Y's condition is met first, so Y must be queued first, whatever the ids and
+// although X's event type shows up first in the block.
+func (g *c17Gen) planOrder() []*c17Plan {
+	r, n := g.r, g.n
+	p := r.Perm(g.nAcc)
+	s1, s2, q, owner := p[0], p[1], p[2], p[3]
+	type at = triggertypes.Attribute
+	mkEv := func(name, key, val string) c17Ev {
+		return c17Ev{ev: &triggertypes.TransactionEvent{Name: name, Attributes: []at{{Name: key, Value: val}}}, isTx: true, shape: "order",
+			coq:  fmt.Sprintf("(EvTx %s %s [(%s, %s)])", g.sym(name), g.lsym(name), g.sym(key), g.sym(val)),
+			desc: fmt.Sprintf("tx %s {%s=%s}", name, key, val)}
+	}
+	// within one send the events come as coin_spent, coin_received, transfer, message
+	pairs := [][2]c17Ev{
+		{mkEv("coin_spent", "spender", g.addrStr(s2)), mkEv("coin_received", "receiver", g.addrStr(q))},
+		{mkEv("coin_spent", "spender", g.addrStr(s2)), mkEv("transfer", "recipient", g.addrStr(q))},
+		{mkEv("coin_received", "receiver", g.addrStr(owner)), mkEv("transfer", "sender", g.addrStr(s1))},
+		{mkEv("coin_spent", "spender", g.addrStr(s2)), mkEv("message", "sender", g.addrStr(s1))},
+	}
+	pair := pairs[r.Intn(len(pairs))]
+	evX, evY := pair[0], pair[1]
+	send := func(from, to int) *c17Plan {
+		n.lastSigners = nil
+		msg := banktypes.NewMsgSend(g.accts[from].addr, g.accts[to].addr, sdk.NewCoins(sdk.NewInt64Coin(c17EvtDen, int64(7+r.Intn(3)))))
+		bz, err := n.signTx(300000, []int{from}, msg)
+		if err != nil {
+			g.t.Fatal(err)
+		}
+		n.pendingSeq[from]++
+		return &c17Plan{kind: "emit", bz: bz, gas: 300000, shape: "order-emit", desc: fmt.Sprintf("order emit %d->%d", from, to)}
+	}
+	create := func(ev c17Ev) *c17Plan {
+		n.lastSigners = nil
+		acts, _ := g.genActions([]int{owner}, false)
+		pl := g.buildCreate([]int{owner}, []int{owner}, ev, acts, int64(150000+r.Intn(100000)), "order-create", false)
+		n.pendingSeq[owner]++
+		return pl
+	}
+	var out []*c17Plan
+	if r.Intn(2) == 0 {
+		out = append(out, create(evX), create(evY))
+	} else {
+		out = append(out, create(evY), create(evX))
+	}
+	// first send: s1 -> q (not X's spender / receiver; meets Y), second: s2 -> owner (meets X)
+	out = append(out, send(s1, q), send(s2, owner))
+	return out
+}
